@@ -133,14 +133,17 @@ func (c *cacheParams) commit(ctx sdk.Context, k common.KeeperOracle) {
 	}
 	i := 0
 	for ; i < len(index.Index); i++ {
-		b := index.Index[i]
-		if b >= oldest {
+		if index.Index[i] >= oldest {
 			break
 		}
-		k.RemoveRecentParams(ctx, b)
 	}
-	if i > 0 && i == len(index.Index) {
+	// the newest entry below the window is kept (record and index): it holds the parameters
+	// that are in force when the window starts, which a restarted node replays the window with
+	if i > 0 {
 		i--
+	}
+	for _, b := range index.Index[:i] {
+		k.RemoveRecentParams(ctx, b)
 	}
 	index.Index = index.Index[i:]
 	// remove and append for KVStore
